@@ -18,6 +18,9 @@ RULE = (
     "pure-Python unpickler after the same opcode, for every prefix both accept; Trace.run() must "
     "print each opcode once in order, return the same program text as untraced decompilation and "
     "leave dumps() unchanged, also when it takes over an interpreter that was already stepped k times; the CLI face of the same clause on stacks of 1-3 generated programs: "
+    "after a trace through an interpreter with its own variable numbering / result name the object's own .ast is "
+    "unchanged; untyped exhaustive enumeration: every token sequence (<= 5 over 14 tokens, <= 6 over 9 core tokens in the "
+    "quick tier) each prefix of which the VM executes, acyclic, is stepped in lockstep; "
     "every line of `fickling FILE` appears in order among the unindented lines of `fickling --trace "
     "FILE` and no other statement does (same variable and result names across the stack). Non-trivial = program of >= 3 opcodes that contains a MARK-consuming "
     "opcode or memo traffic; distinct = distinct byte strings."
